@@ -6,6 +6,8 @@ pub mod c01;
 pub mod backend;
 pub mod middle;
 pub mod c16;
+pub mod c17;
+pub mod c18;
 
 use crate::json::J;
 use std::collections::{BTreeMap, HashSet};
@@ -140,6 +142,8 @@ pub fn run_prop(ctx: &Ctx, acc: &mut Acc) -> Result<(), String> {
         "C05" => middle::c05(ctx, acc),
         "C12" => middle::c12(ctx, acc),
         "C16" => c16::run(ctx, acc),
+        "C17" => c17::run(ctx, acc),
+        "C18" => c18::run(ctx, acc),
         "C06" | "C07" | "C08" | "C09" | "C10" | "C13" => backend::run(ctx, acc),
         other => return Err(format!("unknown property {other}")),
     }
@@ -151,6 +155,8 @@ pub fn replay_prop(prop: &str, payload: &J, acc: &mut Acc) -> Result<(), String>
         "C01" => c01::replay(payload, acc),
         "C02" | "C03" | "C04" | "C05" | "C12" => middle::replay(prop, payload, acc),
         "C16" => c16::replay(payload, acc),
+        "C17" => c17::replay(payload, acc),
+        "C18" => c18::replay(payload, acc),
         "C06" | "C07" | "C08" | "C09" | "C10" | "C13" => backend::replay(prop, payload, acc),
         other => return Err(format!("unknown property {other}")),
     }
